@@ -299,7 +299,7 @@ def R_closure(toks, arg):
                 if out[b].text == "{":
                     # the body is a block already: only the return type is added
                     tyt, _ = tokenize(ty)
-                    for x in tyt: x.pre = ""
+                    tyt[0].pre = ""     # spacing inside the type as written in the directive (`&'a str`)
                     new = _mk(["-", ">", "("], out[b], " ") + _mk(["cret", ":"], out[b], "")
                     new[1].pre = ""; new[3].pre = ""
                     tyt[0].pre = " "
@@ -313,7 +313,7 @@ def R_closure(toks, arg):
                     if u.text in (")", "]", "}", ",", ";"): break
                     j += 1
                 tyt, _ = tokenize(ty)
-                for x in tyt: x.pre = ""
+                tyt[0].pre = ""
                 new = _mk(["-", ">", "("], out[b], " ") + _mk(["cret", ":"], out[b], "")
                 new[1].pre = ""; new[3].pre = ""
                 tyt[0].pre = " "
@@ -765,4 +765,58 @@ def R_castlossblock(toks, arg):
             new[0].pre = toks[i].pre
             out.extend(new); i = e + 1; n += 1; continue
         out.append(toks[i]); i += 1
+    return out, n
+
+def R_namedclosure(toks, arg=None):
+    """arg (optional) = the type of the closure's single untyped parameter, written out because a closure bound by `let` no longer
+    gets it from the method's signature (`|x|` becomes `|x: T|`; a comma inside T is written `|`).
+    `let PAT = RECV.method(|args| e);` — a closure literal that is the only argument of a method call whose value a `let`
+    binds — becomes `let __clN = |args| e; let PAT = RECV.method(__clN);`: the closure value gets a name the ghost text can
+    refer to. Creating the closure has no effect, so building it before the receiver is evaluated changes nothing."""
+    out = list(toks); n = 0; i = 0
+    while i < len(out):
+        t = out[i]
+        if (t.text == "(" and i >= 2 and out[i-1].kind == "ident" and out[i-2].text == "." and i + 1 < len(out) and out[i+1].text == "|"):
+            close = match_close(out, i)
+            if close + 1 < len(out) and out[close+1].text == ";":
+                # the closure must be the whole argument list: no top-level comma
+                j = i + 1; top_comma = False
+                # skip the parameter list |…|
+                pe = j + 1
+                while out[pe].text != "|": pe += 1
+                k = pe + 1
+                while k < close:
+                    u = out[k]
+                    if u.kind == "punct" and u.text in OPEN: k = match_close(out, k) + 1; continue
+                    if u.text == ",": top_comma = True; break
+                    k += 1
+                # statement start: back to the previous `;` `{` `}` at this nesting level
+                s = i - 1; d = 0
+                while s >= 0:
+                    u = out[s]
+                    if u.text in (")", "]", "}") and d == 0 and u.text == "}": break
+                    if u.text in (")", "]"): d += 1
+                    elif u.text in ("(", "["): d -= 1
+                    elif u.text in (";", "{") and d == 0: break
+                    s -= 1
+                s += 1
+                if not top_comma and out[s].text == "let":
+                    n += 1
+                    name = f"__cl{n}"
+                    clos = out[i+1:close]
+                    if arg and pe == j + 2 and clos[1].kind == "ident":
+                        tyt, _ = tokenize(arg.replace("|", ","))
+                        for x in tyt: x.line = clos[1].line
+                        tyt[0].pre = " "
+                        clos[2:2] = _mk([":"], clos[1], "") + tyt
+                    head = _mk(["let", name, "="], out[s], out[s].pre)
+                    clos[0].pre = " "
+                    semi = _mk([";"], out[s], "")
+                    ref = _mk([name], out[i+1], "")
+                    out[i+1:close] = ref
+                    out[s].pre = out[s].pre if "\n" in out[s].pre else " "
+                    ins = head + clos + semi
+                    out[s:s] = ins
+                    i = s + len(ins); continue
+        i += 1
     return out, n
